@@ -56,10 +56,27 @@ Definition mark_kill (s : st) (k : nat) : st :=
                              w_recent := w_recent i; w_killreq := true;
                              w_delivered := w_delivered i |}).
 
+Definition set_kill (s : st) (k : nat) (b : bool) : st :=
+  on_worker s k (fun i => {| w_conn := w_conn i; w_ready := w_ready i; w_errs := w_errs i;
+                             w_recent := w_recent i; w_killreq := b;
+                             w_delivered := w_delivered i |}).
+
+(* the model's own kill request is replaced by what was observed *)
+Definition observed_kills (before after : st) (o : oev) : st :=
+  let s1 := match o_ev o with
+            | EErr k _ =>
+              set_kill after k (match wfind k (s_workers before) with
+                                | Some j => w_killreq j
+                                | None => false
+                                end)
+            | _ => after
+            end in
+  fold_left mark_kill (o_kills o) s1.
+
 (* the model's state after the event, given what the implementation decided *)
 Definition model_next (c : cfg) (em : bool) (ew : nat) (s : st) (o : oev) : st :=
-  fold_left mark_kill (o_kills o)
-    (if o_acc o then effect (fx_of em) c (synced ew s o) (o_ev o) else synced ew s o).
+  observed_kills s
+    (if o_acc o then effect (fx_of em) c (synced ew s o) (o_ev o) else synced ew s o) o.
 
 Definition mismatch (c : cfg) (em : bool) (pr ew : nat) (s : st) (o : oev) : list (N * N) :=
   let s' := model_next c em ew s o in
